@@ -9,6 +9,8 @@ import (
 	abci "github.com/cometbft/cometbft/abci/types"
 	dbm "github.com/cometbft/cometbft-db"
 	sdk "github.com/cosmos/cosmos-sdk/types"
+	"github.com/cosmos/cosmos-sdk/types/query"
+	aoltypes "github.com/medibloc/panacea-core/v2/x/aol/types"
 	"github.com/cosmos/cosmos-sdk/types/tx/signing"
 	authsigning "github.com/cosmos/cosmos-sdk/x/auth/signing"
 	didtypes "github.com/medibloc/panacea-core/v2/x/did/types"
@@ -125,4 +127,27 @@ func TestKnownC08(t *testing.T) {
 		return
 	}
 	fmt.Printf("NOTE: open finding %s did not reproduce\n", f.Key)
+}
+
+// TestKnownC17 : a listing query in reverse direction whose continuation key is the last key
+// makes the SDK's paginator call Key() on an exhausted iterator.
+func TestKnownC17(t *testing.T) {
+	f, ok := findingByKey("C17-paginate-reverse-key")
+	if !ok {
+		t.Skip("not an open finding")
+	}
+	w, err := world.New(world.Options{Prop: "none"})
+	if err != nil {
+		t.Fatal(err)
+	}
+	var m sdk.Msg = &aoltypes.MsgCreateTopicRequest{TopicName: "a", OwnerAddress: w.Accts[0].Bech}
+	_ = w.Apply(world.Step{Kind: "tx", Tx: &world.TxStep{Msgs: []world.MsgJSON{world.EncodeMsg(m)}, Signers: []simnet.SignerSpec{{Acct: 0}}}})
+	_ = w.Apply(world.Step{Kind: "commit", DT: 5})
+	q := w.C.Query("/panacea.aol.v2.Query/Topics", &aoltypes.QueryTopicsRequest{OwnerAddress: w.Accts[0].Bech,
+		Pagination: &query.PageRequest{Key: []byte{1, 'a'}, Reverse: true}}, 0)
+	if simnet.IsPanic(q.Codespace, q.Code) {
+		knownLine(f)
+		return
+	}
+	fmt.Printf("NOTE: open finding %s did not reproduce (code %d %s)\n", f.Key, q.Code, q.Log)
 }
